@@ -137,9 +137,17 @@ let quirk_keys = [
   "inject-defaults-index-drift", (fun q -> { q with q_inject_drift = false });
   "inject-defaults-enum-ref", (fun q -> { q with q_inject_kind = false });
   "inject-defaults-string-reparsed", (fun q -> { q with q_inject_reparse = false });
-  "variable-default-null-list-wrapped", (fun q -> { q with q_default_null_wrap = false });
   "remap-name-collision-upload", (fun q -> { q with q_remap_collision = false });
 ]
+
+(* C06_QUIRKS_OFF=key,key : the quirk setting the implementation under test is expected to have (used to
+   try a repaired copy of the Go code against the corresponding repaired model); default: the code as it is *)
+let base_quirks : quirks =
+  match Sys.getenv_opt "C06_QUIRKS_OFF" with
+  | None | Some "" -> go_quirks
+  | Some s ->
+    List.fold_left (fun q k -> match List.assoc_opt k quirk_keys with Some f -> f q | None -> failwith ("unknown quirk " ^ k))
+      go_quirks (String.split_on_char ',' s)
 
 let rec subsets k l =
   if k = 0 then [[]] else match l with
@@ -149,7 +157,7 @@ let rec subsets k l =
 (* smallest set of causes whose repair makes the model give [want] (true = accept, false = reject) *)
 let find_causes (sch : schema) (vds : vardef list) (j : json) (want : bool) : string list option =
   let try_set set =
-    let q = List.fold_left (fun q (_, f) -> f q) go_quirks set in
+    let q = List.fold_left (fun q (_, f) -> f q) base_quirks set in
     match pipeline q sch reparse vds j with
     | PDone (_, None) -> want
     | PDone (_, Some _) | PNormErr -> not want
@@ -186,7 +194,7 @@ let handle (x : sexp) : (string * string) list =
     let add st d = res := (st, d) :: !res in
     if modes <> "same" then add "mismatch" "corr:C06/modes verdict depends on DisableExposingVariablesContent";
     (* --- bare validator --- *)
-    let m_direct = validate go_quirks sch vds j in
+    let m_direct = validate base_quirks sch vds j in
     let i_direct, i_dinfo = impl_verdict d_s in
     if show_vstate m_direct <> i_direct then
       add "mismatch" (Printf.sprintf "corr:C06/verdict direct impl=%s model=%s" i_direct (show_vstate m_direct))
@@ -196,7 +204,7 @@ let handle (x : sexp) : (string * string) list =
             add "mismatch" (Printf.sprintf "corr:C06/message direct impl=%s model=%s" (quote_string msg) (quote_string (s_of (render_msg e))))
         | _ -> ());
     (* --- pipeline --- *)
-    let m_pipe = pipeline go_quirks sch reparse vds j in
+    let m_pipe = pipeline base_quirks sch reparse vds j in
     let m_stage, m_norm, m_v = match m_pipe with
       | PDone (n, None) -> "ok", Some n, None
       | PDone (n, Some e) -> "vars", Some n, Some e
@@ -252,7 +260,7 @@ let handle (x : sexp) : (string * string) list =
           | Some steps ->
             if not (offending std sch vds' nj (b v) steps) then begin
               (* the one known way to get a mis-named position: the lookup under a colliding mapper name *)
-              let alt = pipeline { go_quirks with q_remap_collision = false } sch reparse vds j in
+              let alt = pipeline { base_quirks with q_remap_collision = false } sch reparse vds j in
               let cause = if alt <> m_pipe then "remap-name-collision-upload" else "unexplained" in
               add "specfail" (Printf.sprintf "error_names_offender cause=%s %s at %s is not an offending position" cause v (quote_string p))
             end);
